@@ -66,7 +66,8 @@ class Counted(collections.abc.Coroutine):
         return self
 
 
-HISTORIES = ("std", "dir", "reoffer", "abort", "abortclose", "gone", "badfp", "stopped", "stopearly")
+HISTORIES = ("std", "dir", "reoffer", "abort", "abortclose", "gone", "badfp", "stopped", "stopearly", "sctpinject")
+INJECTS = ("shutdown", "shutdownack", "shutdowncomplete", "abort", "error", "heartbeat", "reconfig")
 
 
 def script(cfg):
@@ -81,7 +82,11 @@ def script(cfg):
       gone       the remote's sockets die underneath it; the local application creates things (`cfg["after"]`)
       badfp      the answer carries a wrong DTLS fingerprint: the offerer's transport fails with remote tracks present
       stopped    both applications stop their first transceiver after the pair is connected
-      stopearly  the offerer stops its first transceiver while ICE / DTLS are still to connect, then the pair connects"""
+      stopearly  the offerer stops its first transceiver while ICE / DTLS are still to connect, then the pair connects
+      sctpinject the remote SCTP stack does something aiortc's own never does: through its real SCTP transport it sends
+                 `cfg["inj"]` (SHUTDOWN, SHUTDOWN ACK, SHUTDOWN COMPLETE, ABORT, ERROR, HEARTBEAT, a RE-CONFIG resetting all
+                 streams) at stage `cfg["stage"]` (`open`: channels open on both sides; `early`: as soon as the injector's own
+                 association exists); the local close() follows after `cfg["steps"]` loop steps"""
     h = cfg.get("hist", "std")
     media = cfg["media"]
     calls = [[0, "add", m] for m in media]
@@ -92,6 +97,14 @@ def script(cfg):
     if h == "badfp":
         calls += [[1, "createAnswer", None], [1, "setLocal", None], [0, "setRemoteBadFp", None], [None, "settleAny", None],
                   [0, "nop", None]]
+        return calls
+    if h == "sctpinject":
+        calls += [[1, "createAnswer", None], [1, "setLocal", None], [0, "setRemote", None]]
+        if cfg.get("stage", "open") == "open":
+            calls += [[None, "settle", None], [1, "add", "dc"], [None, "waitOpen", None]]
+        else:
+            calls += [[1, "waitAssoc", None]]
+        calls += [[1, "inject", cfg.get("inj", "shutdown")], [0, "yield", cfg.get("steps", 0)]]
         return calls
     calls += [[1, "createAnswer", None], [1, "setLocal", None]]
     if h == "stopearly":
@@ -144,7 +157,7 @@ def all_calls(cfg):
     seen = {}
     out = []
     for c in script(cfg):
-        if c[1] in ("settle", "settleAny", "waitClosed", "onCloseAddDc", "killSockets", "sctpStop", "setDir"):
+        if c[1] in ("settle", "settleAny", "waitClosed", "onCloseAddDc", "killSockets", "sctpStop", "setDir", "waitOpen", "waitAssoc"):
             continue
         key = (c[0], opname(c))
         out.append([c[0], opname(c), seen.get(key, 0)])
@@ -168,6 +181,38 @@ class Session:
             self.world.sync(p)
             cw._listen(self.world, p)
             pc.on("track", lambda track, p=p: self.consume(p, track))
+
+    async def inject(self, pc, kind):
+        """the remote SCTP stack does something aiortc's own never does.  The seam is the remote transport's own chunk sender
+        (`RTCSctpTransport._send_chunk`) and the chunk classes of the module; if any of it is missing this raises, the case is
+        void (skipped) - never a verdict"""
+        import aiortc.rtcsctptransport as m
+        sctp = pc.sctp
+        send = sctp._send_chunk
+        if kind == "shutdown":
+            ch = m.ShutdownChunk()
+            ch.cumulative_tsn = sctp._last_received_tsn
+        elif kind == "shutdownack":
+            ch = m.ShutdownAckChunk()
+        elif kind == "shutdowncomplete":
+            ch = m.ShutdownCompleteChunk()
+        elif kind == "abort":
+            ch = m.AbortChunk()
+        elif kind == "error":
+            ch = m.ErrorChunk()
+            ch.params = [(1, b"\x00\x01\x00\x00")]
+        elif kind == "heartbeat":
+            ch = m.HeartbeatChunk()
+            ch.params = [(1, b"c19-heartbeat")]
+        elif kind == "reconfig":
+            ch = m.ReconfigChunk()
+            param = m.StreamResetOutgoingParam(request_sequence=sctp._reconfig_request_seq,
+                                               response_sequence=sctp._reconfig_response_seq,
+                                               last_tsn=m.tsn_minus_one(sctp._local_tsn), streams=[])
+            ch.params = [(13, bytes(param))]
+        else:
+            raise RuntimeError("unknown injection " + kind)
+        await send(ch)
 
     def consume(self, p, track):
         """what an application does with a received track: a consumer blocked in `await track.recv()` (a MediaBlackhole);
@@ -203,6 +248,21 @@ class Session:
             await pc.getTransceivers()[arg].stop()
         elif op == "nop":
             pass
+        elif op == "yield":
+            for _ in range(arg):
+                await asyncio.sleep(0)
+        elif op == "waitOpen":
+            t0 = time.monotonic()
+            while time.monotonic() - t0 < 3.0:
+                if all(ch.readyState == "open" for P in w.peers for ch in P.chans) and all(P.chans for P in w.peers):
+                    break
+                await asyncio.sleep(0.01)
+        elif op == "waitAssoc":
+            t0 = time.monotonic()
+            while time.monotonic() - t0 < 3.0 and pc.sctp.state != "connected":
+                await asyncio.sleep(0.002)
+        elif op == "inject":
+            await self.inject(pc, arg)
         elif op == "setDir":
             pc.getTransceivers()[0].direction = arg
         elif op == "setRemoteBadFp":
@@ -275,7 +335,7 @@ async def _main(world, case):
     world.install_wrappers()
     world.close_timeout = 5.0
     cfg = {"policy": case["policy"], "media": case["media"], "bundle": case.get("bundle", True)}
-    for key in ("hist", "dir", "extra", "after"):
+    for key in ("hist", "dir", "extra", "after", "inj", "stage", "steps"):
         if key in case:
             cfg[key] = case[key]
     world.obtained_tracks = [[], []]
